@@ -67,7 +67,8 @@ Print Assumptions C18_ql_visit_bytes.
 (* ---------------------------------------------------------------- EdgeQL names *)
 
 (* quote_ident, all flag combinations: one token, text/value = the name; a keyword token left
-   bare with allow_reserved=False is not reserved (except the exempt __type__/__std__); with
+   bare with allow_reserved=False is not reserved (except reserved __names__, which are outside
+   ql_ident_dom: no quoted form expresses them); with
    allow_num an all-digit name is kept as the integer token of the same digits *)
 Theorem C18_ql_quote_ident_partial : forall U force ar an s k,
   ql_ident_dom s = true -> ident_compat U s = true -> num_compat U s = true ->
@@ -75,8 +76,7 @@ Theorem C18_ql_quote_ident_partial : forall U force ar an s k,
   (an = true -> dec_value s < 18446744073709551616) ->
   exists t, ql_lex1 U (ql_quote_ident U force ar an s ++ k) = LexOk t k /\
     (t = TIdent s
-     \/ (t = TKeyword s /\ (ar = false -> ql_kw_reserved s = true ->
-                            in_strs (map ascii_lower s) g_ql_reserved_exempt = true))
+     \/ (t = TKeyword s /\ (ar = false -> ql_kw_reserved s = true -> dunder (map ascii_lower s) = true))
      \/ (an = true /\ py_num_match U s = true /\ t = TInt (dec_value s))).
 Proof. exact p_ql_quote_ident. Qed.
 Print Assumptions C18_ql_quote_ident_partial.
@@ -87,6 +87,8 @@ Theorem C18_ql_quote_ident_quoted : forall U s k, ql_ident_dom s = true -> not_s
 Proof. exact p_ql_ident_quoted. Qed.
 Print Assumptions C18_ql_quote_ident_quoted.
 
+(* ql_param_dom additionally excludes names starting with a backtick: param_to_str writes those
+   unchanged (they are already-quoted names kept verbatim by the parser) *)
 Theorem C18_ql_param_to_str_partial : forall U s k,
   ql_param_dom s = true -> param_compat U s = true -> num_compat U s = true ->
   ql_boundary U k = true ->
